@@ -451,6 +451,9 @@ func (blockchain *Blockchain) verifyBlock(neighborBlock *ledger.Block, previousB
 	var rewarded bool
 	currentBlockTimestamp := neighborBlock.Timestamp()
 	expectedBlockTimestamp := previousBlockTimestamp + blockchain.settings.ValidationTimestamp()
+	if expectedBlockTimestamp < previousBlockTimestamp {
+		return errors.New("neighbor block timestamp is invalid: the expected timestamp overflows")
+	}
 	if currentBlockTimestamp != expectedBlockTimestamp {
 		blockDate := time.Unix(0, currentBlockTimestamp)
 		expectedDate := time.Unix(0, expectedBlockTimestamp)
